@@ -1,8 +1,8 @@
 (* Ordering of BALANCE-typed values against a number or an amount (value_t::is_less_than, BALANCE cells):
    decided component by component on the exact quantities. *)
 From LedgerV Require Import Base.Prelude Base.Round Model.Amount.
-From LedgerV Require Import Proofs.AmountProofs.
-From Coq Require Import QArith.
+From LedgerV Require Import Proofs.AmountProofs Proofs.SortedProofs.
+From Coq Require Import QArith Permutation.
 Local Open Scope Z_scope.
 
 (* the exact quantity a comparison operand stands for *)
@@ -52,19 +52,51 @@ Proof.
   rewrite Forall_forall in HF. specialize (HF x Hin). rewrite Heq in HF. exfalso. exact (Qlt_irrefl q HF).
 Qed.
 
+(* the walk is over sorted_amounts b: a permutation of b, empty exactly when b is *)
+Lemma sorted_amounts_nil b : sorted_amounts b = [] -> b = [].
+Proof.
+  intros H. pose proof (sorted_amounts_perm b) as Hp. rewrite H in Hp. apply Permutation_sym, Permutation_nil in Hp. exact Hp.
+Qed.
+
+Lemma bal_lt_scalar_unfold b w : b <> [] -> bal_lt_scalar b w = bal_all_lt (sorted_amounts b) w.
+Proof.
+  intros Hb. unfold bal_lt_scalar. destruct (sorted_amounts b) as [|x s] eqn:E; [|reflexivity].
+  apply sorted_amounts_nil in E. contradiction.
+Qed.
+
+Lemma bal_gt_scalar_unfold b w : b <> [] -> bal_gt_scalar b w = bal_all_gt (sorted_amounts b) w.
+Proof.
+  intros Hb. unfold bal_gt_scalar. destruct (sorted_amounts b) as [|x s] eqn:E; [|reflexivity].
+  apply sorted_amounts_nil in E. contradiction.
+Qed.
+
+Lemma v_ltb_balance_scalar b w q : scalar_q w = Some q -> v_ltb (VBal b) w = bal_lt_scalar b w.
+Proof. destruct w; cbn [scalar_q]; try discriminate; reflexivity. Qed.
+
 Lemma v_ltb_balance_exact b w q r :
   b <> [] -> scalar_q w = Some q -> v_ltb (VBal b) w = Ok r ->
   (r = true <-> Forall (fun x => (aq x < q)%Q) b).
 Proof.
-  intros Hb Hw. destruct w as [| | y | a | ]; cbn [scalar_q] in Hw; try discriminate; cbn [v_ltb];
-    (destruct b as [|x0 b0]; [congruence|]); apply bal_all_lt_exact; exact Hw.
+  intros Hb Hw. rewrite (v_ltb_balance_scalar b w q Hw), (bal_lt_scalar_unfold b w Hb). intros Hr.
+  rewrite (bal_all_lt_exact w q Hw _ r Hr). split; apply Permutation_Forall.
+  - apply Permutation_sym, sorted_amounts_perm.
+  - apply sorted_amounts_perm.
+Qed.
+
+(* the boundary at the level of the comparison itself *)
+Lemma v_ltb_balance_equal_component w q b x r :
+  scalar_q w = Some q -> In x b -> (aq x == q)%Q -> v_ltb (VBal b) w = Ok r -> r = false.
+Proof.
+  intros Hw Hin Heq. assert (Hb : b <> []) by (intros ->; destruct Hin).
+  rewrite (v_ltb_balance_scalar b w q Hw), (bal_lt_scalar_unfold b w Hb).
+  apply (bal_lt_equal_component w q _ x r Hw); [|exact Heq].
+  apply (Permutation_in _ (sorted_amounts_perm b)). exact Hin.
 Qed.
 
 (* ---- sums of commodity-less amounts: the precision of the sum (which is what is displayed for such an
    amount - there is no commodity to take a display precision from) is the largest precision among the
    summands, whatever their order (amount_t::operator+=: `has_commodity() == amt.has_commodity()`) ---- *)
 From LedgerV Require Import Model.AmountText Proofs.AmountTextProofs.
-From Coq Require Import Permutation.
 
 Fixpoint sum_from (acc : amount) (l : list amount) : res amount :=
   match l with
@@ -154,14 +186,111 @@ Proof.
     apply H in HF. discriminate.
 Qed.
 
+Lemma bal_lt_scalar_plain_perm w b b' :
+  plain_scalar w -> Permutation b b' -> bal_lt_scalar b w = bal_lt_scalar b' w.
+Proof.
+  intros Hp HP. destruct b as [|x b0].
+  - apply Permutation_nil in HP. subst. reflexivity.
+  - destruct b' as [|x' b0']; [apply Permutation_sym, Permutation_nil in HP; discriminate|].
+    rewrite !bal_lt_scalar_unfold by discriminate. apply (bal_all_lt_plain_perm w _ _ Hp).
+    eapply Permutation_trans; [apply Permutation_sym, sorted_amounts_perm|].
+    eapply Permutation_trans; [exact HP | apply sorted_amounts_perm].
+Qed.
+
 Lemma v_ltb_balance_plain_perm w b b' :
   plain_scalar w -> Permutation b b' -> v_ltb (VBal b) w = v_ltb (VBal b') w.
 Proof.
-  intros Hp HP. destruct w as [| | y | a | ]; cbn [plain_scalar] in Hp; try contradiction; cbn [v_ltb].
-  - destruct b as [|x b0], b' as [|x' b0']; try reflexivity;
-      try (apply Permutation_nil in HP; discriminate); try (apply Permutation_sym, Permutation_nil in HP; discriminate).
-    apply (bal_all_lt_plain_perm (VInt y)); [exact I | exact HP].
-  - destruct b as [|x b0], b' as [|x' b0']; try reflexivity;
-      try (apply Permutation_nil in HP; discriminate); try (apply Permutation_sym, Permutation_nil in HP; discriminate).
-    apply (bal_all_lt_plain_perm (VAmt a)); [exact Hp | exact HP].
+  intros Hp HP. destruct w as [| | y | a | ]; cbn [plain_scalar] in Hp; try contradiction; cbn [v_ltb];
+    apply bal_lt_scalar_plain_perm; cbn [plain_scalar]; assumption.
+Qed.
+
+(* ---- BALANCE against ANY operand (a commoditized amount, another balance, ...), either side: the entries are walked
+   in commodity order (value.cc as repaired by /repo 55e6d28), so the outcome - the truth value, or the error and
+   which error - is a function of the CONTENTS of the table.  `distinct_keys` is the invariant of the hash table (one
+   entry per commodity). ---- *)
+Lemma bal_lt_scalar_perm w b b' :
+  distinct_keys b -> Permutation b b' -> bal_lt_scalar b w = bal_lt_scalar b' w.
+Proof. intros Hn HP. unfold bal_lt_scalar. rewrite (sorted_amounts_order_free b b' Hn HP). reflexivity. Qed.
+
+Lemma bal_gt_scalar_perm w b b' :
+  distinct_keys b -> Permutation b b' -> bal_gt_scalar b w = bal_gt_scalar b' w.
+Proof. intros Hn HP. unfold bal_gt_scalar. rewrite (sorted_amounts_order_free b b' Hn HP). reflexivity. Qed.
+
+Lemma bal_to_amount_perm b b' : Permutation b b' -> bal_to_amount b = bal_to_amount b'.
+Proof.
+  intros HP. pose proof (Permutation_length HP) as HL.
+  destruct b as [|x [|y b]].
+  - apply Permutation_nil in HP. subst. reflexivity.
+  - apply Permutation_length_1_inv in HP. subst. reflexivity.
+  - destruct b' as [|x' [|y' b']]; cbn in HL; try discriminate. reflexivity.
+Qed.
+
+Lemma v_ltb_balance_perm_l w b b' :
+  distinct_keys b -> Permutation b b' -> v_ltb (VBal b) w = v_ltb (VBal b') w.
+Proof.
+  intros Hn HP. destruct w as [| | y | a | c]; cbn [v_ltb]; try reflexivity.
+  - apply bal_lt_scalar_perm; assumption.
+  - apply bal_lt_scalar_perm; assumption.
+  - rewrite (bal_to_amount_perm b b' HP). reflexivity.
+Qed.
+
+Lemma v_ltb_balance_perm_r w b b' :
+  Permutation b b' -> v_ltb w (VBal b) = v_ltb w (VBal b').
+Proof.
+  intros HP. destruct w as [| | y | a | c]; cbn [v_ltb]; try reflexivity;
+    rewrite (bal_to_amount_perm b b' HP); reflexivity.
+Qed.
+
+Lemma v_ltb_balance_perm b b' w :
+  distinct_keys b -> Permutation b b' ->
+  v_ltb (VBal b) w = v_ltb (VBal b') w /\ v_ltb w (VBal b) = v_ltb w (VBal b').
+Proof. intros Hn HP. split; [apply v_ltb_balance_perm_l; assumption | apply v_ltb_balance_perm_r; exact HP]. Qed.
+
+(* the four ordering operators of the expression language, as aeval builds them from is_less_than (boost) *)
+Definition v_cmp (o : binop) (v w : value) : res bool :=
+  match o with
+  | OLt => v_ltb v w
+  | OGt => v_ltb w v
+  | OLe => do b <- v_ltb w v; Ok (negb b)
+  | OGe => do b <- v_ltb v w; Ok (negb b)
+  | _ => Err EBadOp
+  end.
+
+Lemma aeval_cmp_is_v_cmp ord cp o l r v w :
+  match o with OLt | OGt | OLe | OGe => True | _ => False end ->
+  aeval ord cp l = Ok v -> aeval ord cp r = Ok w ->
+  aeval ord cp (EBin o l r) = do b <- v_cmp o v w; Ok (VBool b).
+Proof.
+  intros Ho Hl Hr. cbn [aeval]. rewrite Hl, Hr. cbn [bind].
+  destruct o; try contradiction; cbn [v_cmp]; try reflexivity.
+  - destruct (v_ltb w v); reflexivity.
+  - destruct (v_ltb v w); reflexivity.
+Qed.
+
+Lemma v_cmp_balance_perm o b b' w :
+  distinct_keys b -> Permutation b b' ->
+  v_cmp o (VBal b) w = v_cmp o (VBal b') w /\ v_cmp o w (VBal b) = v_cmp o w (VBal b').
+Proof.
+  intros Hn HP. destruct (v_ltb_balance_perm b b' w Hn HP) as [H1 H2].
+  destruct o; cbn [v_cmp]; rewrite ?H1, ?H2; split; reflexivity.
+Qed.
+
+(* top_amount of a balance (report.cc, as repaired by /repo 195dbe5): its first amount in commodity order *)
+Lemma top_amount_perm b b' :
+  distinct_keys b -> Permutation b b' -> top_amount (VBal b) = top_amount (VBal b').
+Proof.
+  intros Hn HP. cbn [top_amount]. rewrite <- (sorted_amounts_order_free b b' Hn HP).
+  destruct (sorted_amounts b) eqn:E; [|reflexivity].
+  apply sorted_amounts_nil in E. subst b. apply Permutation_nil in HP. subst b'. reflexivity.
+Qed.
+
+(* ... and it is the component whose key is least: no other entry of the balance sorts before it *)
+Lemma top_amount_is_least b x :
+  distinct_keys b -> top_amount (VBal b) = VAmt x -> In x b /\ forall y, In y b -> y = x \/ key_lt x y.
+Proof.
+  intros Hn. cbn [top_amount]. pose proof (sorted_amounts_sorted b Hn) as Hs. pose proof (sorted_amounts_perm b) as Hp.
+  destruct (sorted_amounts b) as [|z s] eqn:E; [discriminate|]. intros [= <-]. split.
+  - apply (Permutation_in _ (Permutation_sym Hp)). left. reflexivity.
+  - intros y Hy. apply (Permutation_in _ Hp) in Hy. destruct Hy as [<-|Hy]; [left; reflexivity|].
+    right. inversion Hs as [|? ? _ Hall]; subst. rewrite Forall_forall in Hall. apply Hall. exact Hy.
 Qed.
